@@ -11,6 +11,14 @@ def main():
     except vlib.BuildError as e:
         print(e)
         return 1
+    try:
+        # C20: coq/Generated/TypeGraph*.v from rustdoc JSON of /repo, and the two harness_c20 builds.
+        # The committed Generated files are kept if this fails, so the Coq build below can still run.
+        import typegraph
+        typegraph.setup()
+        print("SETUP: C20 type graphs regenerated, harness_c20 built")
+    except Exception as e:  # noqa
+        print("SETUP: C20 type graph regeneration failed (committed Generated/TypeGraph*.v kept): %s" % str(e)[-1500:])
     vlib.coq_makefile()
     rc, out = vlib.sh("make -j16", cwd=vlib.COQ, timeout=3000)
     print(out[-3000:])
